@@ -197,6 +197,7 @@ type caseRun struct {
 	cfgHook    func(*index.Config)
 	asyncErrs  int
 	lt         *lifetime
+	mergeSeg   map[uint64]bool // segment ids whose Persist is a merge's (for the fault injector's categories)
 }
 
 var current *caseRun
@@ -556,6 +557,9 @@ func (d *recDir) Persist(kind string, id uint64, w index.WriterTo, closeCh chan 
 		c.recordLocked(fmt.Sprintf("snapbegin %d %d %s", id, c.epochK[id], ids(segs)))
 	} else {
 		c.inflight[name] = content
+		if isMerge && c.mergeSeg != nil {
+			c.mergeSeg[id] = true
+		}
 		if isMerge {
 			c.recordLocked(fmt.Sprintf("msegbegin %d", id))
 		} else {
